@@ -258,6 +258,8 @@ def fv_units(tier):
     FT = "fn(int) -> int"
     for route in FV_ROUTES:
         for ename, prints, asserts in FV_EFFECTS:
+            if tier == "quick" and ename == "asserts":
+                continue        # quick keeps pure / prints / prints and asserts
             for pos in ("before", "after"):
                 name = "da_fv%d" % n
                 n += 1
@@ -543,9 +545,12 @@ def mx_units(tier):
 
 # ================================================================================================ (4) access on a call result
 # alphabet: access path x place.  P { x s b f }, Q { inner: P, k, t }, R { q: Q, z }, tuples of 2 / 3 elements.
-def _ac_decls(name, needs):
+def _ac_decls(name, needs, pre=False):
     P, Q, R = _ty(name, "P"), _ty(name, "Q"), _ty(name, "R")
     d = ""
+    if pre:
+        # an unrelated struct, declared first, that has every field name used below at ANOTHER index
+        d += "struct %s { f: float, b: bool, s: string, x: int, t: string, z: int, k: int, q: int, inner: int }\n" % _ty(name, "Z")
     if "P" in needs or "Q" in needs or "R" in needs:
         d += "struct %s { x: int, s: string, b: bool, f: float }\n" % P
     if "Q" in needs or "R" in needs:
@@ -589,15 +594,17 @@ AC_PLACES = ["println-argument", "initialiser", "operand", "call-argument", "ret
 def ac_units(tier):
     n = 0
     for acc, needs, ty, val in AC_ACCESSES:
-        for place in AC_PLACES:
+        for place, pre in itertools.product(AC_PLACES, (False, True)):
             if tier == "quick" and (place in ("call-argument", "condition") or (place == "return-value" and ty != "string")):
                 continue
+            if tier == "quick" and (pre == ("T" in needs)):
+                continue       # quick: struct accesses only with the earlier struct, tuple accesses only without
             if ty == "float" and place in ("operand", "condition"):
                 continue
             name = "da_ac%d" % n
             n += 1
             e = acc.replace("@", name)
-            decls = _ac_decls(name, needs)
+            decls = _ac_decls(name, needs, pre)
             b = Body()
             if place == "println-argument":
                 b.pr(e, val)
@@ -633,7 +640,8 @@ def ac_units(tier):
                 b.s('if (== %s %s) { (println "eq") } else { (println "ne") }' % (e, cmpv))
                 b.emit("eq" if (ty != "bool" or val) else "ne")
                 b.pr("(!= %s %s)" % (e, cmpv), False if ty != "bool" else (not val))
-            yield b.unit(name, decls, "%s (%s) read from a temporary, used as %s" % (acc.replace("@", "f"), ty, place), ret=n % 5)
+            yield b.unit(name, decls, "%s (%s) read from a temporary, used as %s%s" % (
+                acc.replace("@", "f"), ty, place, "; an earlier struct has the same field names at other positions" if pre else ""), ret=n % 5)
 
 
 # ================================================================================================ (5) structs by value
@@ -787,6 +795,8 @@ UN_SHAPES_QUICK = [
     ("three mixed fields, reversed in the second variant", [], [("A", [("a", "int"), ("b", "string"), ("c", "bool")]), ("B", [("c", "bool"), ("b", "string"), ("a", "int")])]),
     ("four variants", [], [("A", [("v", "int")]), ("B", [("s", "string")]), ("C", []), ("D", [("p", "int"), ("q", "int")])]),
     ("struct payload", [("S", [("k", "int"), ("s", "string")])], [("A", [("p", "@S")]), ("B", [("v", "int")])]),
+    ("struct payload whose field names an earlier struct has in another order", [("Z", [("s", "string"), ("v", "int"), ("k", "int")]), ("S", [("k", "int"), ("s", "string")])],
+     [("A", [("p", "@S")]), ("B", [("v", "int")])]),
 ]
 UN_OPS = ["match-statement", "match-expression", "through-function", "returned-from-function", "reassigned", "tag-name"]
 
